@@ -120,7 +120,7 @@ class WeakForms(_Simu):
         # Data
         weakForms = self.weakForms
         field = weakForms.field
-        thickness = 1.0 if self.mesh.inDim == 3 else weakForms.thickness
+        thickness = weakForms.thickness if self.mesh.dim == 2 else 1.0
 
         tic = Tic()
 
